@@ -16,7 +16,7 @@ import numpy as np
 from lift import core, lib
 from lift.core import sym_and, is_sym
 from lift.run import Job
-from harness import dw, drv
+from harness import dw, drv, es
 
 PROPERTY = 'C14'
 
@@ -80,6 +80,109 @@ def resume(S, d, lmin, lmax, version, boundary, out_len, cap, pool, persist):
     S.prove(int(resA[4]) == int(resB[4]), 'resume:same-number-of-evaluations-in-final-grid')
 
 
+def _es_structure(sa):
+    return sorted((tuple(float(x) for x in o.start), tuple(float(x) for x in o.end), int(o.coarseningValue), int(o.needExtendScheme), int(o.numberOfRefinementsBeforeExtend))
+                  for o in es.leaves(sa))
+
+
+def resume_es(S, d, lmin, lmax, version, nrbe, auto, out_len, cap, pool, persist):
+    """Extend-split: interrupted at M1 (optionally saved/restored), continued to M2, against the uninterrupted run to M2."""
+    ES, CELL, GO, G, EC, RO, RC = es.mods()
+    m1 = S.int('M1')
+    m2 = S.int('M2')
+    S.assume(m1 >= 0)
+    S.assume(m1 <= m2)
+    S.assume(m2 <= cap)
+    box = (0.0, 1.0)
+
+    def start(limit):
+        f = lib.make_function(S, 'F', d, out_len)
+        sa, op, grid, a, b = es.make_es(S, f, d, box, True, version, nrbe, auto, False, pool, keyed=True)
+        res = sa.performSpatiallyAdaptiv(lmin, lmax, None, tol=-1.0, max_evaluations=limit, print_output=False)
+        return sa, op, res
+
+    saB, opB, resB = start(m2)
+    saA, opA, resA1 = start(m1)
+    S.observe('interrupted_at', len(resA1[5]))
+    if persist:
+        fn = os.path.join(os.getcwd(), 'c14es_%d.dill' % os.getpid())
+        probe = sorted(set(tuple((float(o.start[k]) + float(o.end[k])) / 2 for k in range(d)) for o in es.leaves(saA)))[:8]
+        before_vals = saA(probe)
+        before_res = [x for x in np.ravel(opA.get_result())]
+        saA.save_to_file(fn)
+        restored = ES.SpatiallyAdaptiveExtendScheme.restore_from_file(fn)
+        os.remove(fn)
+        S.prove(restored is not None and restored is not saA, 'persist:restore-returns-a-new-instance')
+        after_vals = restored(probe)
+        ok = True
+        for u, v in zip(before_vals, after_vals):
+            ok = sym_and(ok, *[S.eq(u[j], v[j]) for j in range(out_len)])
+        S.prove(ok, 'persist:restored-instance-interpolates-identically')
+        after_res = [x for x in np.ravel(restored.operation.get_result())]
+        S.prove(sym_and(*[S.eq(before_res[j], after_res[j]) for j in range(out_len)]), 'persist:restored-instance-reports-the-same-result')
+        S.prove(_es_structure(restored) == _es_structure(saA) and _scheme(restored) == _scheme(saA), 'persist:restored-structure-and-scheme-identical')
+        saA = restored
+    resA = saA.continue_adaptive_refinement(tol=-1.0, max_evaluations=m2)
+    S.observe('final_points', [int(resA[6][-1]), int(resB[6][-1])])
+    S.prove(_es_structure(saA) == _es_structure(saB), 'resume:same-final-refinement-structure')
+    S.prove(_scheme(saA) == _scheme(saB) and [int(x) for x in saA.lmax] == [int(x) for x in saB.lmax], 'resume:same-final-combination-scheme')
+    rA = [x for x in np.ravel(resA[3])]
+    rB = [x for x in np.ravel(resB[3])]
+    S.prove(sym_and(*[S.eq(rA[j], rB[j]) for j in range(out_len)]), 'resume:same-combined-result')
+    S.prove(int(resA[6][-1]) == int(resB[6][-1]), 'resume:same-point-count')
+    # the result after the continuation is also what a from-scratch evaluation of the final refinement gives
+    again = [x for x in np.ravel(saA.evaluate_final_combi()[0])]
+    S.prove(sym_and(*[S.eq(rA[j], again[j]) for j in range(out_len)]), 'resume:continued-result-equals-from-scratch-evaluation')
+
+
+def resume_cell(S, d, level, out_len, cap, pool):
+    """Cell strategy (lmin = lmax): interrupted at M1, continued to M2, against the uninterrupted run."""
+    ES, CELL, GO, G, EC, RO, RC = es.mods()
+    m1 = S.int('M1')
+    m2 = S.int('M2')
+    S.assume(m1 >= 0)
+    S.assume(m1 <= m2)
+    S.assume(m2 <= cap)
+
+    def cells(sa):
+        return sorted((tuple(float(x) for x in o.start), tuple(float(x) for x in o.end)) for o in sa.refinement.get_objects())
+
+    def start(limit):
+        f = lib.make_function(S, 'F', d, out_len)
+        a, b = np.zeros(d), np.ones(d)
+        grid = G.TrapezoidalGrid(a=a, b=b, boundary=True)
+        op = GO.Integration(f=f, grid=grid, dim=d)
+        sa = CELL.SpatiallyAdaptiveCellScheme(a, b, operation=op)
+        state = {'key': None, 'k': 0}
+
+        class Scripted(EC.ErrorCalculator):
+            def calc_error(self_, refine_object, norm, volume_weights=None):
+                import hashlib
+                key = hashlib.md5(repr(cells(sa)).encode()).hexdigest()[:10]
+                if key != state['key']:
+                    state['key'] = key
+                    state['k'] = 0
+                v = 0.0
+                if state['k'] < pool:
+                    v = float(lib.current_source().choice('cerr_%s_%s' % (key, es._area_key(refine_object)), 2))
+                state['k'] += 1
+                return v
+
+        res = sa.performSpatiallyAdaptiv(level, level, Scripted(), tol=-1.0, max_evaluations=limit, print_output=False)
+        return sa, op, res
+
+    saB, opB, resB = start(m2)
+    saA, opA, resA1 = start(m1)
+    S.observe('interrupted_at', len(resA1[5]))
+    resA = saA.continue_adaptive_refinement(tol=-1.0, max_evaluations=m2)
+    S.observe('final_points', [int(resA[6][-1]), int(resB[6][-1])])
+    S.prove(cells(saA) == cells(saB), 'resume:same-final-refinement-structure')
+    rA = [x for x in np.ravel(resA[3])]
+    rB = [x for x in np.ravel(resB[3])]
+    S.prove(sym_and(*[S.eq(rA[j], rB[j]) for j in range(out_len)]), 'resume:same-combined-result')
+    S.prove(int(resA[6][-1]) == int(resB[6][-1]), 'resume:same-point-count')
+
+
 BOUNDS = {
     'quick': {'strategy': 'dimension-wise d=2 (lmin,lmax)=(1,2), versions 6 and 3, boundary on/off', 'cap on M2': 27, 'decisions': 'one of the first 2 intervals per round',
               'persistence': [False, True], 'output length': [1, 2]},
@@ -122,5 +225,16 @@ def jobs(tier):
             cap -= 18
         js.append(Job('resume[d=%d,l=%d-%d,v=%d,%s,out=%d,%s]' % (d, lmin, lmax, v, 'b' if boundary else 'nb', out_len, 'dill' if persist else 'mem'), resume,
                       {'d': d, 'lmin': lmin, 'lmax': lmax, 'version': v, 'boundary': boundary, 'out_len': out_len, 'cap': cap, 'pool': 2 if q else 3, 'persist': persist},
+                      validate=(5 if q else 2), budget_s=(600 if q else 3000)))
+    es_cfgs = [(2, 1, 2, 0, 1, False, 1, 45, False), (2, 1, 2, 0, 1, False, 2, 45, True), (2, 1, 2, 1, 2, False, 1, 45, False), (2, 1, 2, 0, 1, True, 1, 26, False)]
+    if not q:
+        es_cfgs += [(2, 1, 2, 0, 1, False, 1, 60, False), (2, 1, 2, 0, 1, False, 2, 60, True), (2, 1, 2, 1, 2, False, 1, 60, False), (2, 1, 2, 0, 1, True, 1, 36, False)]
+        es_cfgs += [(2, 1, 2, 2, 1, False, 2, 110, True), (2, 1, 2, 0, 2, False, 1, 110, False), (2, 1, 3, 0, 1, False, 1, 130, True), (2, 1, 2, 0, 1, True, 2, 60, True)]
+    for (d, lmin, lmax, v, nrbe, auto, out_len, cap, persist) in es_cfgs:
+        js.append(Job('resume-es[d=%d,l=%d-%d,v=%d,nrbe=%d%s,out=%d,cap=%d,%s]' % (d, lmin, lmax, v, nrbe, ',auto' if auto else '', out_len, cap, 'dill' if persist else 'mem'), resume_es,
+                      {'d': d, 'lmin': lmin, 'lmax': lmax, 'version': v, 'nrbe': nrbe, 'auto': auto, 'out_len': out_len, 'cap': cap, 'pool': 1 if (q and auto) else 2, 'persist': persist},
+                      validate=(5 if q else 2), budget_s=(600 if q else 3000)))
+    for (d, level, out_len, cap) in ([(2, 1, 1, 14), (2, 2, 2, 30)] if q else [(2, 1, 2, 24), (2, 2, 1, 40), (3, 1, 1, 40)]):
+        js.append(Job('resume-cell[d=%d,l=%d,out=%d,cap=%d]' % (d, level, out_len, cap), resume_cell, {'d': d, 'level': level, 'out_len': out_len, 'cap': cap, 'pool': 2},
                       validate=(5 if q else 2), budget_s=(600 if q else 3000)))
     return js
